@@ -13,7 +13,10 @@ Request: `{"kind":"cse_trees","roots":[tree|null,…],"cse_concat":bool,"cse_in_
 `cse_check` (same request fields): `{"wf","used_ok","pairs_ok","check","events","used","filter_ok","unique_ids","reduced","input_ok","fresh_ok","root_dims_ok","overlap_ok"}` (`filter_ok`, `unique_ids`: decidable
 forms of the proved facts `cse_trees_is_cse_step`, `candidates_unique_ids` — sanity checks of the model).
 `cse_enum` (same fields + `"order":"reverse"|"rotate"|"insertion"`): `{"result":{"ok",…},"unique_ids","candidates"}` — the
-model with another enumeration of the dict. -/
+model with another enumeration of the dict.
+`forest_sys` (`{"kind":"forest_sys","roots":[…]}`): `{"vars":[[name,min],…],"eqns":[[poly,poly],…]}` with
+`poly = [{"c":coef,"v":[name,…]},…]` — `forestSys roots`, compared by the harness with the equations the real
+`stage3.solve` hands to `util.solver.solve` (work package cse2). -/
 namespace Einx.Driver.CseTrees
 open Einx.Solve.CseT
 
@@ -76,6 +79,13 @@ def handle (j : Json) : R Json := do
       | .error e => Json.mkObj [("ok", Json.bool false), ("error", Json.str e)]
     pure (Json.mkObj [("result", res), ("unique_ids", Json.bool (uniqueIds (candidates opts roots))),
                       ("candidates", jNat (candidates opts roots).length)])
+  | "forest_sys" =>
+    -- the stage-3 value system `forestSys` of the theorems (Solve/CseCheck.lean) for a list `exprs1 ++ exprs2`
+    let roots ← parseRoots j
+    let sys := forestSys roots
+    let polyJ (p : Poly) : Json := jArr (p.map (fun m => Json.mkObj [("c", jNat m.coef), ("v", jArr (m.vars.map Json.str))]))
+    pure (Json.mkObj [("vars", jArr (sys.vars.map (fun p => jArr [Json.str p.1, jNat p.2]))),
+                      ("eqns", jArr (sys.eqns.map (fun e => jArr [polyJ e.lhs, polyJ e.rhs])))])
   | k => throw s!"unknown cse_trees kind {k}"
 
 end Einx.Driver.CseTrees
